@@ -280,13 +280,13 @@ def run(tier, seed, t0):
     e3 = _e3.E3("C11")
     try:
         prologue(e3)
-    except sym.Unsupported as ex:
+    except _e3.ENC_ERRORS as ex:
         e3.error("c11_prologue", "MIR->SMT encoding of run_transport's prologue", ex)
     shapes = [(1, 1, False), (1, 1, True), (1, 2, True)] if tier == "quick" else [(1, 1, False), (1, 1, True), (1, 2, True), (2, 1, True), (2, 2, False)]
     for nc, nq, wr in shapes:
         try:
             drive(e3, nc, nq, wr)
-        except sym.Unsupported as ex:
+        except _e3.ENC_ERRORS as ex:
             e3.error(f"c11_drive_c{nc}_q{nq}", "MIR->SMT encoding of drive_connection", ex)
     finish("C11", tier, seed, list(e3.res.obligations), t0, ASSUME + ["E3 callee models: " + ", ".join(sorted(e3.models))], sorted(e3.functions),
            explanation="MIR->SMT encoding of the start-up path of the TCP exporter's transport thread over every buffer configuration")
